@@ -39,7 +39,7 @@ Fixpoint run_db (allowC : bool) (limit : N) (d : doc) (steps : list (op * result
   match steps with
   | [] => true
   | (o, r, obs) :: rest =>
-      let (d', r') := step allowC limit d o in
+      let (d', r') := step code_fixed allowC limit d o in
       result_eqb r r' && doc_eqb obs d' && run_db allowC limit d' rest
   end.
 
